@@ -33,6 +33,7 @@ func runC15(c *Ctx, r *Report) {
 	c15R5(c, r, "C15.R5")
 	c15R6(c, r, "C15.R6")
 	c15R7(c, r, "C15.R7")
+	c15MapsMade(c, r, "C15.R19")
 	c15R8(c, r, "C15.R8")
 	c15R9(c, r, "C15.R9")
 	c15R10(c, r, "C15.R10")
